@@ -1,6 +1,37 @@
 -------------------------------- MODULE JC20 --------------------------------
-(* C20 — contract of the recorded events of this property (stub).           *)
+(* C20 — the integer square root is the exact floor for every input.        *)
+(* Event class "sqrt":  x natural, xb operand width in bits -> s            *)
+(*   (sqrt, sqrt_vartime, wrapping_sqrt(_vartime), SquareRoot::*; fixed and *)
+(*   boxed).  Contract: k = "ok" and s is the unique natural with           *)
+(*   s^2 <= x < (s+1)^2.  A boxed result also logs its precision sp, which  *)
+(*   is that of the operand.                                                *)
+(* Event class "csqrt": checked_sqrt(_vartime): some(s) with the same s     *)
+(*   exactly when x is a perfect square, none otherwise.                    *)
 EXTENDS BigNat
 
-JudgeC20(e, rg) == FALSE
+LOCAL Has20(e, f) == f \in DOMAIN e
+
+\* the defining property of the floor square root, stated directly (not through ISqrt)
+LOCAL C20_IsFloorSqrt(s, x) ==
+  /\ Le(Mul(s, s), x)
+  /\ Lt(x, Mul(Add(s, One), Add(s, One)))
+
+LOCAL C20_IsPerfectSquare(x) == LET r == ISqrt(x) IN Mul(r, r) = x
+
+LOCAL C20_SqrtOK(e) ==
+  /\ e.k = "ok"
+  /\ Has20(e, "s")
+  /\ C20_IsFloorSqrt(e.s, e.x)
+  /\ e.s = ISqrt(e.x)                            \* the same thing through the library operator
+  /\ Has20(e, "sp") => e.sp = e.xb               \* boxed: result keeps the operand's precision
+
+LOCAL C20_JudgeSqrt(e) == C20_SqrtOK(e)
+
+LOCAL C20_JudgeCheckedSqrt(e) ==
+  IF C20_IsPerfectSquare(e.x) THEN C20_SqrtOK(e) ELSE e.k = "none"
+
+JudgeC20(e, rg) ==
+  CASE e.op = "sqrt"  -> C20_JudgeSqrt(e)
+    [] e.op = "csqrt" -> C20_JudgeCheckedSqrt(e)
+    [] OTHER -> FALSE
 =============================================================================
